@@ -26,7 +26,7 @@ def _run(ctx):
     ds = [d for d in ctx.facts.bodies if d.startswith(EM + "::") and d.endswith("::run::{closure#0}")]
     if len(ds) != 1:
         raise Exception("ExecutionManager::run coroutine not found: %r" % ds)
-    return ctx.body(ds[0])
+    return ctx.ibody(ds[0])
 
 
 def _reach_avoiding(b, frm, targets, avoid):
@@ -178,20 +178,6 @@ def r2(ctx):
         ctx.check("ExecutionManager::run:%s-response" % kind, alts == want and render(stm[2][0]) == "^self.response_tx",
                   "the event sent is the timeout event or the indexed client response (nothing else)", sites=[st["sp"]],
                   got=sorted(render(a)[-60:] for a in alts), key="event")
-        # from the timeout event, no way back to the loop head (or out) without sending
-        hit = _reach_avoiding(b, tout[0][0], set(heads) | {mir.EXIT}, {sb})
-        ctx.check("ExecutionManager::run:%s-timeout" % kind, not hit, "a timed-out request always produces its event", sites=[tout[0][1]["sp"]],
-                  got=sorted(hit), key="always-sent")
-        # from the response, the only way around the send is the catalogued `continue` on an un-indexable response
-        around = _reach_avoiding(b, resp[0][0], set(heads) | {mir.EXIT}, {sb})
-        if around:
-            # which blocks are on such paths right after the response? they must be guarded by `process_response is Err`
-            gsend = b.guard(sb)
-            only_err = all(any(a[0] == "is" and a[1] == resp[0][2] and a[2] == frozenset(["Ok"]) for a in conj) or
-                           any(a[0] == "is" and a[2] == frozenset(["Err"]) and render(a[1]).endswith(pay) for a in conj) for conj in gsend)
-            ctx.check("ExecutionManager::run:%s-response" % kind, only_err,
-                      "a client response is dropped only when it cannot be indexed (catalogued exception), otherwise its event is sent",
-                      got=render_guard(gsend)[-300:], key="exception-only")
         # escape edges: inside the arm (entered on select branch idx), every decision edge that leaves the blocks from which the
         # send is still reachable and gets back to the loop head must be the catalogued one: process_*_response(..) is Err
         hs = set(heads)
@@ -218,11 +204,21 @@ def r2(ctx):
                 if y in hs or y == mir.EXIT or _reach_avoiding(b, y, hs | {mir.EXIT}, set()):
                     a = b.edge_atom(x, lab)
                     escapes.append((x, a))
-        bad = [mir.render_atom(a)[-140:] if a else "unconditional@bb%d" % x for x, a in escapes
-               if not (a and a[0] == "is" and a[1] == resp[0][2] and a[2] == frozenset(["Err"]))]
+        # an escape decided on a value assigned in several arms (`let r = match c { Ok(x) => f(x), Err(q) => Ok(timeout(q)) };
+        # match r { Err(_) => continue, .. }`) is resolved to the arms that can actually produce it (is-phi lifting)
+        bad = []
+        for x, a in escapes:
+            if not a:
+                bad.append("unconditional@bb%d" % x)
+                continue
+            lifted = b._lift_is_phi(a, set()) or b._lift_bool_phi(a, set())
+            conjs = lifted if lifted is not None else [frozenset([a])]
+            for conj in conjs:
+                if not any(q[0] == "is" and q[1] == resp[0][2] and q[2] == frozenset(["Err"]) for q in conj):
+                    bad.append(" && ".join(sorted(mir.render_atom(q)[-90:] for q in conj)) or "unconditional@bb%d" % x)
         ctx.check("ExecutionManager::run:%s-response" % kind, len(entry) == 1 and sb in region and not bad,
-                  "inside the arm, the only decision that skips the send is `process_%s_response(..) is Err` (no other condition "
-                  "drops a completion)" % kind, got=bad, key="escape-edges")
+                  "inside the arm, the only decision that skips the send is `process_%s_response(..) is Err`: a timed-out request "
+                  "always produces its event and a client response is dropped only when it cannot be indexed" % kind, got=bad[:4], key="escape-edges")
         # exactly once: the send is not in an inner loop of its own
         ctx.check("ExecutionManager::run:%s-response" % kind, sb not in _reach_avoiding(b, sb, {sb}, set(heads)),
                   "the event is sent once per completion", key="once")
@@ -230,37 +226,33 @@ def r2(ctx):
 
 
 def r3(ctx):
-    nb = ctx.fbody(name="new", self_adt=RF, trait="")
+    nb = ctx.fibody(name="new", self_adt=RF, trait="")
     rt = nb.return_term()
     f = {k: render(v) for k, v in zip(rt[2], rt[3])} if rt[0] == "agg" else {}
     ctx.check("RequestFuture::new", f == {"request": "request", "response_future": "time::timeout(timeout, future)"},
               "keeps the request and wraps the client future in tokio::time::timeout(timeout, future)", got=f, key="fields")
-    pb = ctx.body(ctx.find(name="poll", self_adt=RF))
+    pb = ctx.ibody(ctx.find(name="poll", self_adt=RF))
     polls = [tm for bi, t, tm in pb.real_calls() if tm[1].endswith("Future::poll")]
     ok = len(polls) == 1 and "response_future" in render(polls[0][2][0])
     ctx.check("RequestFuture::poll", ok, "polls only the timeout-wrapped client future", got=[render(x)[:120] for x in polls], key="polls")
-    # map_err(|_| request.clone())
-    found = False
-    for d in ctx.closures_of(pb.defn):
-        cb = ctx.body(d)
-        for dd in [d] + ctx.closures_of(d):
-            cbb = ctx.body(dd)
-            r = render(cbb.return_term())
-            if r.endswith("request") and ("^" in r):
-                found = True
-    rt = pb.return_term()
-    ctx.check("RequestFuture::poll", found and rt[0] == "call" and rt[1].endswith("Poll::<T>::map"),
-              "Ready(Ok(response)) passes through; Ready(Err(elapsed)) becomes Err(the original request)", got=render(rt)[:200], key="maps-elapsed")
+    tab = common.case_table(pb)
+    p = "Future::poll(self.response_future, cx)"
+    want = {"(%s is Pending)" % p: ["Poll::Pending{}"],
+            "(%s is Ready && %s.as:Ready.0 is Ok)" % (p, p): ["Poll::Ready{0: Result::Ok{0: %s.as:Ready.0.as:Ok.0}}" % p],
+            "(%s is Ready && %s.as:Ready.0 is Err)" % (p, p): ["Poll::Ready{0: Result::Err{0: self.request}}"]}
+    ctx.check("RequestFuture::poll", tab == want,
+              "Pending stays pending; Ready(Ok(response)) passes through; Ready(Err(elapsed)) becomes Err(the original request)",
+              got=tab, want=want, key="maps-elapsed")
 
 
 def r4(ctx):
-    ct = ctx.fbody(name="process_cancel_timeout", self_adt=EM, trait="")
+    ct = ctx.fibody(name="process_cancel_timeout", self_adt=EM, trait="")
     r = render(ct.return_term())
     ctx.check("ExecutionManager::process_cancel_timeout",
               r == "Event::Item{0: AccountEvent::AccountEvent{exchange: order.key.exchange, kind: AccountEventKind::OrderCancelled{0: "
               "OrderEvent::OrderEvent{key: order.key, state: Result::Err{0: OrderError::Connectivity{0: ConnectivityError::Timeout{}}}}}}}",
               "a cancel timeout is reported against the request's own key and exchange as a Timeout failure", got=r, key="event")
-    ot = ctx.fbody(name="process_open_timeout", self_adt=EM, trait="")
+    ot = ctx.fibody(name="process_open_timeout", self_adt=EM, trait="")
     r = render(ot.return_term())
     ev = common.agg_fields(ot.return_term(), "AccountEvent::AccountEvent")
     of = common.agg_fields(ot.return_term(), "order::Order::Order")
@@ -271,13 +263,13 @@ def r4(ctx):
           "OrderError::Connectivity{0: ConnectivityError::Timeout{}}" in of.get("state", ""))
     ctx.check("ExecutionManager::process_open_timeout", ok,
               "an open timeout is reported as a failed (inactive, Timeout) snapshot of the request's own order", got=r[:400], key="event")
-    cr = ctx.fbody(name="process_cancel_response", self_adt=EM, trait="")
+    cr = ctx.fibody(name="process_cancel_response", self_adt=EM, trait="")
     oks = [render(t) for g, t, bi in cr.expanded_cases(0) if render(t).startswith("Result::Ok")]
     idx = "Try::branch(AccountEventIndexer::order_response_cancel(self.indexer, order)).as:Continue.0"
     ctx.check("ExecutionManager::process_cancel_response", oks == [
         "Result::Ok{0: Event::Item{0: AccountEvent::AccountEvent{exchange: %s.key.exchange, kind: AccountEventKind::OrderCancelled{0: %s}}}}" % (idx, idx)],
         "the client's cancel response is indexed and attributed to its own key's exchange", got=oks, key="event")
-    orr = ctx.fbody(name="process_open_response", self_adt=EM, trait="")
+    orr = ctx.fibody(name="process_open_response", self_adt=EM, trait="")
     cases = common.expand_phi_cases(orr, [c for c in orr.expanded_cases(0) if render(c[1]).startswith("Result::Ok")])
     tab = {}
     for g, term, bi in cases:
